@@ -1,6 +1,8 @@
 import Driver.Proto
 import PqModel.IoFault
 import PqModel.IoFaultSrc
+import PqModel.IoFaultRead
+import PqModel.Bloom
 
 /-! Ops of C14.
 
@@ -24,6 +26,13 @@ import PqModel.IoFaultSrc
   the verbatim column-chunk path: after a `Write` of `pre` bytes, `copySection` of a `len`-byte
   section whose source stops after `cut` bytes (`-` = never) with io.EOF (`eof` = 1) or another error.
   Answer: `ok <err 0/1> <offset> <bytes accepted by the chain> <bytes held by the sink>`.
+* `io.merge2 <seeded 0/1> <src0> <src1> <caps>` — a session of `mergedRowReader2.ReadRows` over two
+  scripted sources `rows:failIn:eager:errWithRows` (`rows`, `caps`: comma lists, `-` = empty;
+  `failIn`: `-` = never). Answer: `ok <call>|<call>|…`, a call being `<n|e|x>:<rows>` (nil / io.EOF /
+  error) with the rows as `a<key>` (input 0) / `b<key>` (input 1) separated by `,` (`-` = none).
+* `io.bloomprobe <clearEOF 0/1> <x> <stale hex> <block hex> <n> <n|e|x>` — `bloom.CheckSplitBlock` on a
+  pooled block holding `stale`, the `ReadAt` delivering `n` bytes of `block` with that result, the
+  key being the low 32 bits `x` of the hash. Answer: `ok <0/1> <n|e|x>`.
 * `open.model <enc 0/1> <hex>` / `open.spec …` — trailer stage of OpenFile:
   `ok <footer hex>` | `err <class>`. -/
 namespace Driver.Ops.C14
@@ -176,6 +185,42 @@ def showOpen (r : Except OpenErr Bytes) : String :=
   | .error .badFooterMagic => "err bad-footer-magic"
   | .error .footerBounds => "err footer-bounds"
 
+open PqModel.IoFault.Rd in
+def parseSrc? (s : String) : Option Src :=
+  match s.splitOn ":" with
+  | [rows, failIn, eager, ewr] => do
+    let rows ← if rows == "-" then some [] else parseList? parseInt? rows
+    let failIn ← if failIn == "-" then some none else (parseNat? failIn).map some
+    if !(eager == "0" || eager == "1") || !(ewr == "0" || ewr == "1") then none
+    else some ⟨rows, failIn, eager == "1", ewr == "1"⟩
+  | _ => none
+
+open PqModel.IoFault.Rd in
+def showRes : Res → String
+  | .nil => "n"
+  | .eof => "e"
+  | .err => "x"
+
+open PqModel.IoFault.Rd in
+def parseRes? : String → Option Res
+  | "n" => some .nil
+  | "e" => some .eof
+  | "x" => some .err
+  | _ => none
+
+open PqModel.IoFault.Rd in
+def runMerge2 (seeded : Bool) (s0 s1 : Src) (caps : List Nat) : String :=
+  let r := session seeded caps (M2.new s0 s1)
+  -- every call but the last answered nil; the last one carries the result of the session
+  let n := r.1.length
+  let calls := (List.range n).map fun i =>
+    let rows := r.1.getD i []
+    let res := if i + 1 == n then r.2.1 else Res.nil
+    let rs := if rows.isEmpty then "-" else
+      ",".intercalate (rows.map fun p => (if p.1 then "b" else "a") ++ toString p.2)
+    showRes res ++ ":" ++ rs
+  "ok " ++ (if calls.isEmpty then "-" else "|".intercalate calls)
+
 def handle (toks : List String) : Option String :=
   match toks with
   | ["io.run", cap, failAt, mode, plan] => some <|
@@ -207,6 +252,20 @@ def handle (toks : List String) : Option String :=
     | some cap, some sink, some pre, some len, some cut =>
       if cap == some 0 || !(eof == "0" || eof == "1") || !(checked == "0" || checked == "1") then "bad-op"
       else runCopySrc cap sink pre len (cut.map (fun c => ⟨c, eof == "1"⟩)) (checked == "1")
+    | _, _, _, _, _ => "bad-op"
+  | ["io.merge2", seeded, a, b, caps] => some <|
+    match parseSrc? a, parseSrc? b, (if caps == "-" then some [] else parseList? parseNat? caps) with
+    | some a, some b, some caps =>
+      if !(seeded == "0" || seeded == "1") then "bad-op" else runMerge2 (seeded == "1") a b caps
+    | _, _, _ => "bad-op"
+  | ["io.bloomprobe", clear, x, stale, blk, n, r] => some <|
+    match parseNat? x, parseHex? stale, parseHex? blk, parseNat? n, parseRes? r with
+    | some x, some stale, some blk, some n, some r =>
+      if !(clear == "0" || clear == "1") then "bad-op"
+      else
+        let p := PqModel.IoFault.Rd.probe (clear == "1")
+          (fun b => PqModel.Bloom.blockCheckGo (PqModel.Bloom.parseWords 8 b) (BitVec.ofNat 32 x)) stale blk n r
+        "ok " ++ (if p.1 then "1" else "0") ++ " " ++ showRes p.2
     | _, _, _, _, _ => "bad-op"
   | ["open.model", enc, hex] => some <|
     match parseHex? hex with
